@@ -155,6 +155,21 @@ func edge(x *mon.Ctx) {
 		c.End()
 	}
 
+	// 3b. the same construction with the digest chosen first and small, so that the digest e + n (the same residue,
+	// a 32-byte value >= n) exists: both spellings must be accepted, with x1 just below n, in [n,p) and elsewhere
+	// (e >= n together with e + x1 >= 2n needs two reductions modulo n)
+	x2Kinds := []string{"n-1-j", "n-2^200-j", "[n,p) random", "n+j", "p-1-j", "2^255+j"}
+	for i := 0; i < x.Scale(48, 600); i++ {
+		kind := x2Kinds[i%len(x2Kinds)]
+		c := x.Begin("edge prescribed point R with x in class %q and digests e, e+n i=%d", kind, i)
+		if c == nil {
+			continue
+		}
+		c.Class("x1-e+n/%s", kind)
+		prescribedPointDigestAlias(c, kind, i)
+		c.End()
+	}
+
 	// 4. final addition [s]G + [t]P is a doubling, or the point at infinity
 	for i := 0; i < x.Scale(30, 400); i++ {
 		c := x.Begin("edge final addition exceptional i=%d", i)
@@ -299,6 +314,85 @@ func prescribedPoint(c *mon.Case, kind string) {
 	// without the reduction of x1 the pair would need the digest r - x1 + n (if it fits)
 	judgeRS(c, "digest+1", vin{k: k, e: ec.Bytes32(new(big.Int).Mod(add(e, one), two56))}, r, s)
 	judgeRS(c, "r+1 around R", in, modn(add(r, one)), s)
+}
+
+// prescribedPointDigestAlias: R with an abscissa of the requested class, a digest e below 2^256 - n chosen first,
+// r = e + x1 mod n, s random, t = r + s, P = t^-1 (R - [s]G). The pair (r, s) is valid for the digest e and for the
+// digest e + n, which is the same residue written as a 32-byte value >= n.
+func prescribedPointDigestAlias(c *mon.Case, kind string, i int) {
+	var x0 *big.Int
+	j := big64(int64(c.R.Intn(1000)))
+	switch kind {
+	case "n-1-j":
+		x0 = sub(sub(n, one), j)
+	case "n-2^200-j":
+		x0 = sub(sub(n, new(big.Int).Lsh(one, 200)), j)
+	case "[n,p) random":
+		x0 = add(n, c.R.BigBelow(sub(ec.P, n)))
+	case "n+j":
+		x0 = add(n, j)
+	case "p-1-j":
+		x0 = sub(sub(ec.P, one), j)
+	default:
+		x0 = add(new(big.Int).Lsh(one, 255), j)
+	}
+	var R ec.Point
+	for {
+		if x0.Sign() < 0 {
+			x0.Add(x0, ec.P)
+		}
+		if y := ec.Sqrt(ec.RHS(x0)); y != nil {
+			if c.R.Bool() {
+				y.Sub(ec.P, y)
+			}
+			R = ec.Point{X: new(big.Int).Set(x0), Y: y}
+			break
+		}
+		x0.Sub(x0, one) // downwards: stays below n for the classes below n
+	}
+	room := sub(two56, n) // digests e with e + n < 2^256
+	var e *big.Int
+	switch i % 5 {
+	case 0:
+		e = big64(int64(1 + c.R.Intn(1000)))
+	case 1:
+		e = sub(room, big64(int64(1+c.R.Intn(1000))))
+	case 2:
+		e = new(big.Int).Lsh(one, uint(64+c.R.Intn(150)))
+	default:
+		e = c.R.BigBelow(room)
+	}
+	r := modn(add(e, R.X))
+	s := randScalar(c.R)
+	t := modn(add(r, s))
+	if r.Sign() == 0 || t.Sign() == 0 {
+		c.Trivial()
+		return
+	}
+	P := ec.Mul(invn(t), ec.Add(R, ec.Neg(ec.BaseMul(s))))
+	if P.Inf {
+		c.Trivial()
+		return
+	}
+	k := pubOnly(P)
+	if R.X.Cmp(n) >= 0 {
+		c.Event("x1_not_below_n", 1)
+	}
+	if add(add(e, n), R.X).Cmp(add(n, n)) >= 0 {
+		c.Event("digest_plus_x1_needs_two_reductions", 1)
+	}
+	for _, v := range []struct {
+		name string
+		e    *big.Int
+	}{{"digest e", e}, {"digest e+n (same residue, 32-byte value >= n)", add(e, n)}} {
+		want := judgeRS(c, v.name+" around R with x="+R.X.Text(16), vin{k: k, e: ec.Bytes32(v.e)}, r, s)
+		if want != sm2sig.Accept {
+			c.Inconclusive("reference refuses the signature constructed around R for %s: %s", v.name, want)
+			return
+		}
+		c.Event("constructed_valid_signatures", 1)
+	}
+	judgeRS(c, "digest e+n+1", vin{k: k, e: ec.Bytes32(add(add(e, n), one))}, r, s)
 }
 
 // exceptionalAdd: choose d and r, solve s so that [s]G = [t]P (the final addition
